@@ -119,7 +119,7 @@ def e2e_case(ctx, case):
                 e2e_case(ctx, dict(vals=[vf], compress=case['compress']))
             return
         v, form = case['vals'][0]
-        ctx.violation('%s:e2e:refused:%s' % (PROP, form), '%%hi/%%lo of %#x written as %s is refused: %s' % (v & M32, form, str(e).splitlines()[-1][:150]),
+        ctx.violation('%s:e2e:refused:%s' % (PROP, form), '%%hi/%%lo of %#x written as %s is refused: %s' % (v & M32, form, kernel.errline(e)[:150]),
                       'e2e_case', case, expected='accepted', observed=repr(e)[:300])
         return
     cur = 0
